@@ -173,7 +173,7 @@ Definition t_stmt : stmt := Stmt [(7, 3); (8, 3)] Return [].
 Definition t_obs (after : option Z) (h : Z) : lobs :=
   LObs 0 true None (Some 100) after true [] [] (Some [(7, [1; h; 3; 1])]) 1 0 true [5] None (Some 5) None 0 false false.
 Example selftest :
-  case_ok None t_shapes [Inv t_args t_stmt (t_obs (Some 100) 4)] = (true, true, false)
-  /\ case_ok None t_shapes [Inv t_args t_stmt (t_obs None 4)] = (false, true, true)
+  case_ok None t_shapes [Inv t_args t_stmt (t_obs (Some 100) 4)] = (false, true, false)
+  /\ case_ok None t_shapes [Inv t_args t_stmt (t_obs None 4)] = (true, true, true)
   /\ case_ok None t_shapes [Inv t_args t_stmt (t_obs (Some 100) 5)] = (false, false, false).
 Proof. vm_compute. repeat split. Qed.
